@@ -248,7 +248,7 @@ def cache_oracle(case, fi, stats=None):
 
 def judge_free(ctx, rows, oracle, classify, nontrivial, what):
     """free runs have no schedule to replay on the model: the implementation's result is judged by the specification only"""
-    rows = [r for r in rows if r[0].startswith('pfree ')]
+    rows = [r for r in rows if r[0].startswith(('pfree ', 'pstrat '))]
     if not rows:
         return
     model = ctx.run_driver('drv_c16', [c for c, _ in rows])
@@ -270,6 +270,8 @@ def run(ctx):
                    'translator/cmd/tickerdump (go/ast): field names, access sites, write/read classification, lock regions of extractor/filesystem/*.go',
                    'harness/cmd/c16gen: gates inside patchFunc / fetch callbacks; the delivery order of ComputePatches is pinned by releasing one gate at a time and waiting for the '
                    'main loop to read the result (ConstructPatches reads the patched manifest); waiters of a cache call are observed through the overlay export VerifWaiters',
+                   'real-strategy stream: harness/remx in-memory resolve client (deps.dev schema) and local matcher; the table of isolated attempts is computed by the harness with the real patchVulns / '
+                   'ConstructPatches and is the specification input (an attempt that is wrong even in isolation is outside this check: C11/C12)',
                    'slices.SortFunc / slices.CompactFunc by contract (n <= 12: stable insertion sort)', 'lean/Drivers/C16.lean line protocol; Lean compiler for the driver',
                    'Go race detector (runtime part)']
     ctx.assumptions = ['granularity: one step = one caller-supplied callback returning / one critical section of RequestCache; the Go memory model below that and inside '
@@ -292,7 +294,11 @@ def run(ctx):
                        'ConstructPatches is modelled for manifests with distinct requirement names, no new keys, vulnerabilities without subgraphs',
                        'version grammar of the universes: <major>.0.0 parses, ^x / ~x / ranges / 1x do not (asserted against deps.dev npm semver at generator start)',
                        'ticker table: accesses are syntactic (x.f with x a walkContext receiver/parameter/local); aliasing through other pointers is not tracked']
-    ctx.rule = ('twins: 12 universes in which DISTINCT attempts produce the IDENTICAL patch (same manifest => same vulnerabilities) and then diverge — different follow-up id lists, different '
+    ctx.rule = ('real strategies: the REAL relax (npm) and override (Maven) strategies — patchVulns, reqsToRelax / ConstrainingSubgraph, resolution, ConstructPatches, common.ComputePatches — on 11 (quick) / 14 '
+                '(thorough) deps.dev schema universes: 2..3 advisories with different fix versions on ONE graph node (they share a *DependencySubgraph), diamond parent paths (constraining + '
+                'non-constraining), a second vulnerable package, a fix that introduces a vulnerability; every order of running the attempts one at a time (held at their start, the next released when '
+                'the previous has returned) and free runs (GOMAXPROCS 1/16, repetitions; also under -race, one case at a time) against the closure over attempts run IN ISOLATION on freshly read and '
+                'resolved inputs, sorted/compacted by the Lean model with the target versions ranked by the ecosystem own comparator. twins: 12 universes in which DISTINCT attempts produce the IDENTICAL patch (same manifest => same vulnerabilities) and then diverge — different follow-up id lists, different '
                 'final versions, twins again one level down, failing / no-op follow-ups; grouped and per-vuln branch, concrete and relax-style versions; random universes are manifest-consistent '
                 '(equal updates => equal vulnerability sets) so twins occur there too. aliases: 4 universes with one package required twice (npm alias), whose fixes agree on keys 1-5 of '
                 'Patch.Compare but differ (Fixed ids, requirement Type) and are separated by key 6 since fix 09778cd0: per universe the results of ALL delivery orders and free runs must be equal '
@@ -382,16 +388,25 @@ def run(ctx):
         t = case.split(' ')
         if t[0] == 'patches':
             return t[5].count('/') >= 2
+        if t[0] == 'pstrat':
+            return True
         if t[0] == 'pfree':
             return t[4].count('|') >= 2
         return 'w' in fi.get('cls', '') or ':err' in t[2]
 
     def oracle(case, fi, fm):
         t = case.split(' ')
-        if t[0] in ('patches', 'pfree'):
+        if t[0] in ('patches', 'pfree', 'pstrat'):
             r = fi.get('res', fi.get('_', '')) if t[0] == 'patches' else fi.get('out', fi.get('_', ''))
-            how = ('under the delivery order %s' % '/'.join('[' + ','.join(bytes.fromhex(x).decode('utf-8', 'replace') for x in k.split('.')) + ']' for k in t[5].split('/') if k != '-')
-                   if t[0] == 'patches' else 'run freely under the Go scheduler (%s: GOMAXPROCS/repetition)' % t[5])
+            sched = lambda x: '/'.join('[' + ','.join(bytes.fromhex(y).decode('utf-8', 'replace') for y in k.split('.')) + ']' for k in x.split('/') if k != '-')
+            if t[0] == 'patches':
+                how = 'under the delivery order %s' % sched(t[5])
+            elif t[0] == 'pfree':
+                how = 'run freely under the Go scheduler (%s: GOMAXPROCS/repetition)' % t[5]
+            elif t[6].startswith('gated:'):
+                how = '(REAL %s strategy, attempts run one at a time in the order %s)' % ('override' if t[1] == '1' else 'relax', sched(t[6][6:]))
+            else:
+                how = '(REAL %s strategy, run freely under the Go scheduler, %s)' % ('override' if t[1] == '1' else 'relax', t[6])
             if r == 'panic':
                 return 'ComputePatches panicked (%s)' % how
             if t[0] == 'pfree' and fi.get('client') == 'stateful':
@@ -419,6 +434,14 @@ def run(ctx):
             u['n'] += 1
             depth = max(k.split('=')[0].count('.') for k in t[4].split('|')) if t[4] != '-' else 0
             return 'patches mode=%s order=%s ids<=%d' % (t[1], fm.get('order'), depth + 1)
+        if t[0] == 'pstrat':
+            head = ' '.join(t[:5])
+            u = by_universe.setdefault(head, {'order': fm.get('order'), 'res': set(), 'n': 0, 'sample': {}})
+            if fi.get('out') not in (None, 'error', 'panic'):
+                u['res'].add(fi['out'])
+                u['sample'].setdefault(fi['out'], case)
+            u['n'] += 1
+            return 'real-strategy %s %s' % ('override/maven' if t[1] == '1' else 'relax/npm', 'gated' if t[6].startswith('gated:') else t[6].split('r')[0])
         if t[0] == 'pfree':
             head = 'patches ' + ' '.join(t[1:5])          # free runs of a universe belong to the same group as its enumerated delivery orders
             u = by_universe.setdefault(head, {'order': fm.get('order'), 'res': set(), 'n': 0, 'sample': {}})
@@ -429,7 +452,7 @@ def run(ctx):
             return 'free mode=%s ids<=%d %s%s' % (t[1], depth + 1, t[5].split('r')[0], ' stateful-client' if fi.get('client') == 'stateful' else '')
         return 'cache callers=%d keys=%d setmap=%s' % (t[1].count(',') + 1, len(set(t[1].split(','))), '1' if ',S' in t[2] else '0')
 
-    if not ctx.replay or any(l.startswith(('patches ', 'cache ', 'pfree ')) for l in open(ctx.replay)):
+    if not ctx.replay or any(l.startswith(('patches ', 'cache ', 'pfree ', 'pstrat ')) for l in open(ctx.replay)):
         lib.standard_stream(ctx, gen='c16gen', driver='drv_c16', gen_args=['-seed', str(ctx.seed), '-n', str(n), '-tier', ctx.tier],
                             compare_keys=COMPARE, nontrivial=nontrivial, oracle=oracle, classify=classify, sample_every=1499)
     if not ctx.replay:
@@ -439,6 +462,12 @@ def run(ctx):
         if binary:
             rows, okg = ctx.run_gen(binary, ['-mode', 'free', '-seed', str(ctx.seed), '-tier', ctx.tier])
             judge_free(ctx, rows, oracle, classify, nontrivial, 'c16gen -mode free')
+            # the REAL relax (npm) and override (Maven) strategies end to end on schema universes with several advisories per node and diamond
+            # parent paths: every order of running the attempts one at a time + free runs, against the closure over attempts run in isolation
+            rows, okg = ctx.run_gen(binary, ['-mode', 'strat', '-seed', str(ctx.seed), '-tier', ctx.tier])
+            if not okg:
+                ctx.violation('c16gen -mode strat crashed: ' + '; '.join(ctx.notes[-1:]), ['# see notes'], found_input=False, name='gencrash-strat')
+            judge_free(ctx, rows, oracle, classify, nontrivial, 'c16gen -mode strat')
     # schedule independence observed on the implementation itself, per universe
     nu = len(by_universe)
     viol = {'mixed_version_forms': 0, 'of_which_result_LISTS_differ_across_schedules': 0}
@@ -476,27 +505,28 @@ def run(ctx):
         else:
             scan_seeds = [ctx.seed * 100 + i for i in range({'quick': 1, 'thorough': 5}[ctx.tier])]
             # 4a'. free runs under the race detector, sequentially, halting at the first report so that it belongs to ONE case
-        free_args = ['-mode', 'free', '-seed', str(ctx.seed), '-tier', ctx.tier]
+        runs = [['-mode', 'free', '-seed', str(ctx.seed), '-tier', ctx.tier], ['-mode', 'strat', '-seed', str(ctx.seed), '-tier', ctx.tier]]
         if ctx.replay:
-            free_args = ['-replay', ctx.replay] if any(l.startswith('pfree ') for l in open(ctx.replay)) else None
-        if free_args:
+            runs = [['-replay', ctx.replay]] if any(l.startswith(('pfree ', 'pstrat ')) for l in open(ctx.replay)) else []
+        for free_args in runs:
+            what = 'real strategies' if 'strat' in free_args else 'free run'
             e = lib.goenv()
             e['GORACE'] = 'halt_on_error=1 exitcode=66'
             p = subprocess.run([race_bin] + free_args, stdout=subprocess.PIPE, stderr=subprocess.PIPE, text=True, timeout=1800, env=e, errors='replace')
-            frows = [tuple(l.split('\t', 1)) for l in p.stdout.split('\n') if '\t' in l and l.startswith('pfree ')]
-            races['free_runs_under_race'] = len(frows)
+            frows = [tuple(l.split('\t', 1)) for l in p.stdout.split('\n') if '\t' in l and l.startswith(('pfree ', 'pstrat '))]
+            races['free_runs_under_race'] = races.get('free_runs_under_race', 0) + len(frows)
             rep = race_report(p.stderr)
             if rep or p.returncode == 66:
                 races['reports'] += 1
                 running = [l[6:] for l in p.stderr.split('\n') if l.startswith('@case ')]
                 case = running[-1] if running else '# (case unknown)'
                 i = p.stderr.find('WARNING: DATA RACE')
-                ctx.violation('the race detector reports a data race inside guided remediation\'s patch computation (real ComputePatches, free run): %s' % (rep or 'exit code 66'),
-                              [case] + ['# ' + l for l in p.stderr[i:].split('\n')[:45]], name='race-free')
+                ctx.violation('the race detector reports a data race inside guided remediation\'s patch computation (%s): %s' % (what, rep or 'exit code 66'),
+                              [case] + ['# ' + l for l in p.stderr[i:].split('\n')[:45]], name='race-' + ('strat' if 'strat' in free_args else 'free'))
             elif p.returncode != 0:
-                ctx.violation('c16gen-race -mode free exited %d: %s' % (p.returncode, p.stderr[-600:]), ['# see notes'], found_input=False, name='race-free-crash')
+                ctx.violation('c16gen-race %s exited %d: %s' % (' '.join(free_args[:2]), p.returncode, p.stderr[-600:]), ['# see notes'], found_input=False, name='race-free-crash')
             if drv_ok:
-                judge_free(ctx, frows, oracle, classify, nontrivial, 'c16gen-race -mode free')
+                judge_free(ctx, frows, oracle, classify, nontrivial, 'c16gen-race ' + ' '.join(free_args[:2]))
         # 4a''. ungated Get/GetMap/SetMap from several goroutines on one cache, under the race detector (observation of what
         # C16_cache_guarded states for the struct fields, and of the WaitGroup-ordered call fields it does not cover)
         st_seeds = [int(l.split()[1]) for l in open(ctx.replay) if l.startswith('cstress ')] if ctx.replay else [ctx.seed]
